@@ -1174,6 +1174,12 @@ func conv(t_dst, t_src types.Type, x value) value {
 	if r, ok := symConv(ut_dst, ut_src, x); ok {
 		return r
 	}
+	if fp, ok := x.(fakePtr); ok {
+		if b, ok := ut_dst.(*types.Basic); ok && b.Kind() == types.Uintptr {
+			return uintptr(fp)
+		}
+		return fp
+	}
 
 	// Destination type is not an "untyped" type.
 	if b, ok := ut_dst.(*types.Basic); ok && b.Info()&types.IsUntyped != 0 {
